@@ -584,7 +584,28 @@ func c04Signals() []*c04Sig {
 // drains the queue and flushes the parked batch) and the multiset of (item, resource context, scope context)
 // that reached the push function must be the one that was sent; nothing may arrive twice.
 // ---------------------------------------------------------------------------------------------------
+// set when an exporter did not shut down in time: the remaining end-to-end histories are skipped
+var c04E2EStuck bool
+
+// Shutdown under a deadline (a broken batcher may never finish its last flush)
+func c04ShutdownGuarded(out *vOut, detail string, f func(context.Context) error) {
+	done := make(chan error, 1)
+	go func() { done <- f(context.Background()) }()
+	select {
+	case err := <-done:
+		if err != nil {
+			out.Oracle("e2e-shutdown", "", detail+" err="+err.Error())
+		}
+	case <-time.After(30 * time.Second):
+		c04E2EStuck = true
+		out.Oracle("e2e-shutdown-hang", "", detail+": Shutdown did not return within 30 s although every export returns at once")
+	}
+}
+
 func c04EndToEnd(out *vOut, g *c04Gen, traces bool) {
+	if c04E2EStuck {
+		return
+	}
 	g.m4, g.prof = false, false
 	szt := g.r.Pick(1, 2)
 	n := 2 + g.r.Intn(4)
@@ -643,9 +664,7 @@ func c04EndToEnd(out *vOut, g *c04Gen, traces bool) {
 				out.Oracle("e2e-send", "", detail+" err="+err.Error())
 			}
 		}
-		if err := exp.Shutdown(ctx); err != nil {
-			out.Oracle("e2e-shutdown", "", detail+" err="+err.Error())
-		}
+		c04ShutdownGuarded(out, detail, exp.Shutdown)
 		for _, td := range sink.AllTraces() {
 			got = append(got, c04ObsTraces(newTracesRequest(td), szt).flat(true)...)
 			nb++
@@ -663,9 +682,7 @@ func c04EndToEnd(out *vOut, g *c04Gen, traces bool) {
 				out.Oracle("e2e-send", "", detail+" err="+err.Error())
 			}
 		}
-		if err := exp.Shutdown(ctx); err != nil {
-			out.Oracle("e2e-shutdown", "", detail+" err="+err.Error())
-		}
+		c04ShutdownGuarded(out, detail, exp.Shutdown)
 		for _, ld := range sink.AllLogs() {
 			got = append(got, c04ObsLogs(newLogsRequest(ld), szt).flat(true)...)
 			nb++
